@@ -197,7 +197,11 @@ class C06(Check):
             cs = codeset(c)
             a, b = case["range"]
             acc = 0
-            for wi in range(a, b):
+            order = list(range(a, b))
+            import random as _random
+
+            _random.Random(core.derive("C06words", c, a)).shuffle(order)  # complete block, pseudo-random visiting order
+            for wi in order:
                 wd = int2ba(wi, n)
                 got = bool(cls.check(wd))
                 res["evals"] += 1
